@@ -69,7 +69,7 @@ func HDeterminism() {
 			vAssert(jeA.File.Name() == jeB.File.Name() && jeA.Index == jeB.Index, "c06-error-location-depends-on-map-order")
 			vAssert(jeA.Error() == jeB.Error(), "c06-include-trace-depends-on-map-order")
 		} else {
-			vSameDigest(vDigest(cA), vDigest(cB), "c06-catalog-depends-on-map-order")
+			vSameDigest(vDigestDeep(cA), vDigestDeep(cB), "c06-catalog-depends-on-map-order")
 		}
 	}
 	if jeA != nil {
